@@ -141,6 +141,14 @@ def ancestralProb (pop : Option Var) (children parents : List Var) (orderedA : L
       let d ← d.given parents
       mkProb pop d
 
+/-- the expression for `Q[A]` in the recursive branch: Lemma 3 when `Q[T]` is a `Fraction | Product | Sum`,
+the marginal of the given probability when it is a `Probability`; anything else is a `TypeError` -/
+def ancestralExpr (q : Expr) (A T orderedA topo : List Name) : Except Err Expr :=
+  if isFracProdSum q then ancestralQ A T q topo
+  else match q with
+    | .prob pop children parents => ancestralProb pop children parents orderedA
+    | _ => .error (.invalidInput "TypeError")
+
 /-- `identify_district_variables(input_variables=C, input_district=T, district_probability=q, graph=G, topo)`;
 `none` is the Python `None` (FAIL).  Structural recursion on `fuel`; `identify` starts with `|T| + 1`, and
 `Y0.tian_total` shows that the fuel never runs out. -/
@@ -167,11 +175,7 @@ def identifyAux (G : MG Name) (topo : List Name) (C : List Name) :
           match GA.districts.find? (fun d => subset' C d) with
           | none => .error (.internal "ValueError")
           | some T' =>
-            let qA ← (
-              if isFracProdSum q then ancestralQ A T q topo
-              else match q with
-                | .prob pop children parents => ancestralProb pop children parents orderedA
-                | _ => .error (.invalidInput "TypeError"))
+            let qA ← ancestralExpr q A T orderedA topo
             let qT' ← computeCFactor T' A qA topo
             identifyAux G topo C fuel T' qT'
         else .error (.internal "NotImplementedError")
